@@ -17,6 +17,8 @@ use varpulis_cluster::worker::WorkerCapacity;
 mod sync;
 #[cfg(feature = "persistent")]
 mod rocks;
+#[cfg(feature = "persistent")]
+mod cluster;
 
 fn read_cases(p: &str) -> Vec<J> {
     std::fs::read_to_string(p).unwrap().lines().filter(|l| !l.trim().is_empty()).map(|l| serde_json::from_str(l).unwrap()).collect()
@@ -83,8 +85,15 @@ pub fn command(c: &J) -> ClusterCommand {
         k => panic!("command {k}"),
     }
 }
-/// canonical JSON of the replicated state (maps sorted)
+/// canonical view of the IN-MEMORY state: Debug of every entry with maps sorted (the serialized form would hide fields that are
+/// skipped or defaulted by serde)
 pub fn canon(s: &CoordinatorState) -> J {
+    fn m<V: std::fmt::Debug>(h: &std::collections::HashMap<String, V>) -> J { let mut v: Vec<String> = h.iter().map(|(k, x)| format!("{k} => {x:?}")).collect(); v.sort(); json!(v) }
+    let conns: J = { let mut v: Vec<String> = s.connectors.iter().map(|(k, c)| { let mut p: Vec<String> = c.params.iter().map(|(a, b)| format!("{a}={b}")).collect(); p.sort(); format!("{k} => {} {} {:?} {:?}", c.name, c.connector_type, p, c.description) }).collect(); v.sort(); json!(v) };
+    json!({"workers": m(&s.workers), "groups": m(&s.pipeline_groups), "connectors": conns, "migrations": m(&s.active_migrations), "policy": format!("{:?}", s.scaling_policy), "models": m(&s.models), "serialized": canon_json(s)})
+}
+/// canonical JSON of the replicated state (maps sorted)
+pub fn canon_json(s: &CoordinatorState) -> J {
     fn sort(v: J) -> J { match v { J::Object(m) => { let mut b: BTreeMap<String, J> = BTreeMap::new(); for (k, x) in m { b.insert(k, sort(x)); } J::Object(b.into_iter().collect()) } J::Array(a) => J::Array(a.into_iter().map(sort).collect()), x => x } }
     sort(serde_json::to_value(s).unwrap())
 }
@@ -104,10 +113,11 @@ pub fn entry(term: u64, index: u64, c: Option<&J>) -> Entry<TypeConfig> {
 }
 
 // ---------------------------------------------------------------- stores
-pub trait Store: RaftStorage<TypeConfig> + Sized { fn fresh(dir: &std::path::Path) -> Self; fn direct_state(&self) -> Option<CoordinatorState>; const NAME: &'static str; }
+pub trait Store: RaftStorage<TypeConfig> + Sized { fn fresh(dir: &std::path::Path) -> Self; fn fresh_shared(dir: &std::path::Path) -> (Self, Option<varpulis_cluster::raft::store::SharedCoordinatorState>) { (Self::fresh(dir), None) } fn direct_state(&self) -> Option<CoordinatorState>; const NAME: &'static str; }
 /// the store's state machine: the public field where there is one, else what the store puts into a snapshot it builds
-async fn state_of<S: Store>(s: &mut S) -> CoordinatorState {
+async fn state_of<S: Store>(s: &mut S, shared: &Option<varpulis_cluster::raft::store::SharedCoordinatorState>) -> CoordinatorState {
     if let Some(st) = s.direct_state() { return st; }
+    if let Some(sh) = shared { return sh.read().unwrap().clone(); }      // the in-memory state as published after the last apply / install
     let snap = s.get_snapshot_builder().await.build_snapshot().await.unwrap();
     let v: J = serde_json::from_slice(&snap.snapshot.into_inner()).unwrap();
     serde_json::from_value(v["state"].clone()).unwrap()
@@ -116,6 +126,7 @@ impl Store for MemStore { fn fresh(_: &std::path::Path) -> Self { MemStore::new(
 #[cfg(feature = "persistent")]
 impl Store for varpulis_cluster::raft::persistent_store::RocksStore {
     fn fresh(dir: &std::path::Path) -> Self { varpulis_cluster::raft::persistent_store::RocksStore::open(dir.to_str().unwrap()).expect("open") }
+    fn fresh_shared(dir: &std::path::Path) -> (Self, Option<varpulis_cluster::raft::store::SharedCoordinatorState>) { let (s, sh) = varpulis_cluster::raft::persistent_store::RocksStore::open_with_shared_state(dir.to_str().unwrap()).expect("open"); (s, Some(sh)) }
     fn direct_state(&self) -> Option<CoordinatorState> { None }
     const NAME: &'static str = "RocksStore";
 }
@@ -129,10 +140,10 @@ async fn sm_case<S: Store>(c: &J, rep: &mut Report) {
     let entries: Vec<Entry<TypeConfig>> = log.iter().enumerate().map(|(i, c)| entry(1, i as u64 + 1, Some(c))).collect();
     let tmp = tempfile::tempdir().unwrap();
     // (a) one by one
-    let mut a = S::fresh(&tmp.path().join("a"));
+    let (mut a, sha) = S::fresh_shared(&tmp.path().join("a"));
     for e in &entries { a.apply_to_state_machine(std::slice::from_ref(e)).await.unwrap(); }
     // (b) two batches cut at `cut`
-    let mut b = S::fresh(&tmp.path().join("b"));
+    let (mut b, shb) = S::fresh_shared(&tmp.path().join("b"));
     if cut > 0 { b.apply_to_state_machine(&entries[..cut]).await.unwrap(); }
     if cut < n { b.apply_to_state_machine(&entries[cut..]).await.unwrap(); }
     // (c) snapshot at `snap` built by one store, installed into a fresh one, rest applied there
@@ -140,11 +151,11 @@ async fn sm_case<S: Store>(c: &J, rep: &mut Report) {
     if snap > 0 { c1.apply_to_state_machine(&entries[..snap]).await.unwrap(); }
     let mut builder = c1.get_snapshot_builder().await;
     let snapshot = builder.build_snapshot().await.unwrap();
-    let mut c2 = S::fresh(&tmp.path().join("c2"));
+    let (mut c2, shc) = S::fresh_shared(&tmp.path().join("c2"));
     c2.install_snapshot(&snapshot.meta, snapshot.snapshot).await.unwrap();
     let applied_after_install = c2.last_applied_state().await.unwrap().0;
     if snap < n { c2.apply_to_state_machine(&entries[snap..]).await.unwrap(); }
-    let (sta, stb, stc) = (state_of(&mut a).await, state_of(&mut b).await, state_of(&mut c2).await);
+    let (sta, stb, stc) = (state_of(&mut a, &sha).await, state_of(&mut b, &shb).await, state_of(&mut c2, &shc).await);
     let (sa, sb, sc) = (canon(&sta), canon(&stb), canon(&stc));
     rep.case(&small, sa != canon(&CoordinatorState::default()));
     if sa != sb { rep.violation(&["C35"], "applying the log in two batches gives another state than entry by entry", &small, sa.clone(), sb); }
@@ -229,6 +240,8 @@ fn main() {
             rep.write(&args[3]);
         }
         "suite" => suite(&args[2]),
+        #[cfg(feature = "persistent")]
+        "cluster-record" => cluster::record(&rt, &args[2..]),
         #[cfg(feature = "persistent")]
         "rocks-replay" => rocks::replay(&rt, &args[2], &args[3]),
         "sync-replay" => sync::replay(&rt, &args[2], &args[3]),
